@@ -22,7 +22,7 @@ RULE = ("cases: histories of 1-6 add() calls on configurators over 3-6 boolean i
         "and at least one defaulted rule; distinct by digest of the history")
 BUDGET = {"quick": (8, 90, 60), "thorough": (16, 1500, 900)}
 MANDATORY = ["judged:add==direct:state", "judged:add==direct:default_prios", "judged:add==direct:polyhedron", "judged:add==direct:select",
-             "judged:id-kept", "judged:earlier-unchanged", "judged:refused", "judged:refusal-leaves-unchanged", "contract:StingyConfigurator.add"]
+             "judged:id-kept", "judged:earlier-unchanged", "judged:refused", "judged:refusal-leaves-unchanged", "contract:StingyConfigurator.add", "count:branching-additions", "count:item-additions"]
 
 
 def add_snap(args, kwargs):
@@ -73,9 +73,20 @@ def gen_case(rng, tier, ctx, i):
                 rule["_refuse"] = True
                 adds.append(rule)
                 continue
+        if r < 0.3:
+            # a bare item (any variable is a proposition): boolean, integer ranges, fixed
+            used = {a["id"] for a in base["args"] + adds if a["k"] == "var"}
+            free = [i for i in ["n", "m", "t", "u"] + items if i not in used]
+            if free:
+                adds.append({"k": "var", "id": rng.choice(free), "b": list(rng.choice([(0, 1), (0, 3), (-2, 2), (1, 1), (0, 1)]))})
+                continue
         rule = confgen.gen_rule(rng, items, idgen, p_id=0.6)
         adds.append(rule)
-    return {"base": base, "adds": adds, "seed": rng.getrandbits(32)}
+    # histories are trees, not only chains: each addition names the configurator (by position in the history) it extends
+    parents = []
+    for k in range(len(adds)):
+        parents.append(k if rng.random() < 0.65 else rng.randint(0, k))       # k = the latest one, smaller = an earlier one
+    return {"base": base, "adds": adds, "parents": parents, "seed": rng.getrandbits(32)}
 
 
 def solve_all(cfg, prios):
@@ -88,30 +99,35 @@ def run_case(case, ctx):
     rng = random.Random(case["seed"])
     c14.clear_caches()
     base = case["base"]
-    c = recipes.fresh(base)
-    if adapters.validated(c) is None:
+    c0 = recipes.fresh(base)
+    if adapters.validated(c0) is None:
         raise monitor.OutOfScope()
-    live = [(c, digest.state(c))]
-    accepted = []
-    cid = c.id
+    cid = c0.id
+    # live[k] = (configurator, its state digest, the recipes of the rules it was extended with)
+    live = [(c0, digest.state(c0), [])]
     history = []
-    for rule in case["adds"]:
+    naccepted = 0
+    parents = case.get("parents") or list(range(len(case["adds"])))
+    for step, rule in enumerate(case["adds"]):
         clean = recipes.strip(rule)
+        pk = min(parents[step], len(live) - 1)
+        c, _, accepted = live[pk]
         robj = recipes.fresh(clean)
         existing = {p.id for p in c.propositions}
         must_refuse = robj.id in existing
-        history.append({"rule": clean, "must_refuse": must_refuse})
+        history.append({"extends": pk, "rule": clean, "must_refuse": must_refuse})
+        w = lambda **kw: dict({"history": history, "base": base}, **kw)
         if must_refuse:
             before = digest.state(c)
             try:
                 c.add(robj)
-                ctx.check(False, "refused", lambda: {"history": history, "note": "add() accepted a rule whose id names an existing top-level rule/item"})
+                ctx.check(False, "refused", lambda: w(note="add() accepted a rule whose id names an existing top-level rule/item"))
                 return
             except monitor.ContractBroken:
                 raise
             except Exception:
                 ctx.check(True, "refused", None)
-            ctx.check(digest.state(c) == before, "refusal-leaves-unchanged", lambda: {"history": history, "diff": digest.first_diff(before, digest.state(c))})
+            ctx.check(digest.state(c) == before, "refusal-leaves-unchanged", lambda: w(diff=digest.first_diff(before, digest.state(c))))
             continue
         direct_recipe = {"k": "Stingy", "id": cid, "args": list(base["args"]) + accepted + [clean]}
         c14.clear_caches()
@@ -120,9 +136,12 @@ def run_case(case, ctx):
             ctx.count("direct-construction-not-validated(step skipped)")
             history.pop()
             continue
-        new = ctx.call("add", c.add, robj)
-        accepted.append(clean)
-        w = lambda **kw: dict({"history": history, "base": base}, **kw)
+        new = ctx.call("add", c.add, robj)           # an exception here (e.g. a refusal of a rule that must be accepted) is a violation
+        naccepted += 1
+        if pk != len(live) - 1:
+            ctx.count("count:branching-additions")
+        if clean["k"] == "var":
+            ctx.count("count:item-additions")
         s_new, s_dir = digest.state(new), digest.state(direct)
         ctx.check(s_new == s_dir, "add==direct:state", lambda: w(diff=digest.first_diff(s_new, s_dir)))
         ctx.check(new.id == cid, "id-kept", lambda: w(expected=cid, got=new.id))
@@ -136,7 +155,8 @@ def run_case(case, ctx):
         ctx.check(digest.array_state(p_new) == digest.array_state(p_dir), "add==direct:polyhedron",
                   lambda: w(diff=digest.first_diff(digest.array_state(p_new), digest.array_state(p_dir))))
         ids = [v.id for v in p_dir.variables][1:]
-        if len(ids) <= 16:
+        box = [v.bounds.as_tuple() for v in p_dir.variables][1:]
+        if refmodel.box_size(box, 1 << 16) <= (1 << 16):
             prios = [{rng.choice(ids): rng.choice([-2, -1, 1, 2, 3]) for _ in range(rng.randint(0, 3))} for _ in range(2)]
             c14.clear_caches()
             r_new, _ = solve_all(new, prios)
@@ -145,14 +165,13 @@ def run_case(case, ctx):
             c14.clear_caches()
             ctx.check(r_new == r_dir, "add==direct:select", lambda: w(prios=prios, add=r_new, direct=r_dir))
         bad = None
-        for k, (obj, st) in enumerate(live):
+        for k, (obj, st, _acc) in enumerate(live):
             now = digest.state(obj)
             if now != st:
                 bad = {"configurator": k, "diff": digest.first_diff(st, now)}
                 break
         ctx.check(bad is None, "earlier-unchanged", lambda: w(bad=bad))
-        live.append((new, s_new))
-        c = new
-    if len(accepted) >= 2 and any(n.get("default") for r in [base] + accepted for n in refmodel.recipe_nodes(r)):
-        ctx.nt(monitor.digest([base, accepted]))
-    ctx.sample({"base": base, "history": history, "accepted": len(accepted)})
+        live.append((new, s_new, accepted + [clean]))
+    if naccepted >= 2 and any(n.get("default") for r in [base] + [h["rule"] for h in history] for n in refmodel.recipe_nodes(r)):
+        ctx.nt(monitor.digest([base, history]))
+    ctx.sample({"base": base, "history": history, "accepted": naccepted})
